@@ -9,6 +9,8 @@ package main
 
 import (
 	"fmt"
+	"io"
+	"log"
 	"os"
 	"runtime"
 	"strconv"
@@ -24,6 +26,7 @@ var checks = map[string]checkFn{}
 var workers = map[string]func(args []string){}
 
 func main() {
+	log.SetOutput(io.Discard) // gomacro logs through the standard logger
 	if len(os.Args) >= 3 && os.Args[1] == "__worker" {
 		w, ok := workers[os.Args[2]]
 		if !ok {
